@@ -330,3 +330,4 @@ def run(ctx):
             ctx.ob(key + '/paths', False, 'branch-free', w, 'one path', str(e))
     ctx.floor('roots analysed', done, len(roots))
     ctx.floor('vector kinds', len(kinds), 13)
+    ctx.floor('API uses generated (counted at implementation time)', len(roots), 2852)
